@@ -148,9 +148,29 @@ def _load(prop_id: str):
     return _MOD
 
 
+_PRISTINE: dict = {}
+
+
+def _reset_globals() -> None:
+    """
+    Module-level state outside the code under test that one execution can leak into the next (it would make a verdict depend on the
+    order of the cases).  pulser-core 1.9.1: for an idle sequence SequenceSamples.eigenbasis returns the module-level list
+    EIGENSTATES[...] itself and HamiltonianData._get_eigenbasis(with_leakage=True) appends "x" to it - permanently.
+    """
+    try:
+        import pulser.channels.base_channel as bc
+    except Exception:  # pragma: no cover
+        return
+    if "eig" not in _PRISTINE:
+        _PRISTINE["eig"] = {k: [s for s in v if s != "x"] for k, v in bc.EIGENSTATES.items()}
+    for k, v in _PRISTINE["eig"].items():
+        bc.EIGENSTATES[k][:] = v
+
+
 def _run_one(args: tuple[str, int, dict]) -> tuple[int, dict]:
     prop_id, idx, case = args
     mod = _load(prop_id)
+    _reset_globals()
     try:
         res = mod.run_case(case)
     except HarnessError as e:
